@@ -360,6 +360,7 @@ inductive Q
   | receiptByHash       -- Receipt
   | l1HandlerMsg        -- L1HandlerTxnHash for an L1-handler transaction of the block
   | requireRetained     -- pruner.RequireRetained (used by the event filter)
+  | eventsFrom          -- EventFilter.Events over [n, head] (no address / key filter)
   | stateAtNumber       -- StateAtBlockNumber + reads
   | stateAtHash         -- StateAtBlockHash + reads
   deriving DecidableEq, Repr
@@ -413,6 +414,14 @@ def answer (c : Cfg) (s : St) (q : Q) (n : Nat) : Ans :=
   | .receiptByHash => allOf d n [.txl, .txs, .hdr]
   | .l1HandlerMsg => allOf d n [.l1m]
   | .requireRetained => if d.has .comm n then .ok else .pruned
+  | .eventsFrom =>
+    match d.height with
+    | none => .notfound          -- the chain height read fails
+    | some h =>
+      if n > h then .ok          -- nothing to scan; retention is only consulted for start blocks <= head
+      else if d.has .comm n then -- RequireRetained(startBlock), then receipts + header hash of the scanned blocks
+        (if (List.range (h + 1 - n)).all (fun j => d.has .txs (n + j) && d.has .hdr (n + j)) then .ok else .notfound)
+      else .pruned
   | .stateAtNumber =>
     match d.height with
     | none => .notfound
@@ -441,7 +450,11 @@ def headState (c : Cfg) (s : St) : Ans :=
 def twinAnswer (height : Option Nat) (q : Q) (n : Nat) : Ans :=
   match height with
   | none => if q = .requireRetained then .pruned else .notfound
-  | some h => if n ≤ h then .ok else (if q = .requireRetained then .pruned else .notfound)
+  | some h =>
+    if n ≤ h then .ok
+    else if q = .requireRetained then .pruned
+    else if q = .eventsFrom then .ok   -- an empty range: no events, no error
+    else .notfound
 
 /-! ## Specification vocabulary (used by the theorems; not executed by the driver) -/
 
